@@ -253,6 +253,8 @@ struct Stub {
     a1: f64,
     a2: f64,
     calls: Arc<AtomicUsize>,
+    /// what the real code handed to the predictor last: raw speed and grade with their units
+    seen: Arc<std::sync::Mutex<Option<(f64, String, f64, String)>>>,
 }
 
 impl PredictionModel for Stub {
@@ -266,19 +268,20 @@ impl PredictionModel for Stub {
         let s = speed_unit.convert(&speed, &self.su).as_f64();
         let g = grade_unit.convert(&grade, &self.gu).as_f64();
         self.calls.fetch_add(1, Ordering::SeqCst);
+        *self.seen.lock().unwrap() = Some((speed.as_f64(), format!("{}", speed_unit), grade.as_f64(), format!("{}", grade_unit)));
         let rate = self.a0 + self.a1 * s + self.a2 * g;
         Ok((EnergyRate::new(rate), self.ru))
     }
 }
 
-fn build_record(name: &str, r: &RecSpec, calls: Arc<AtomicUsize>) -> PredictionModelRecord {
+fn build_record(name: &str, r: &RecSpec, calls: Arc<AtomicUsize>, seen: Arc<std::sync::Mutex<Option<(f64, String, f64, String)>>>) -> PredictionModelRecord {
     let cache = r.cache.as_ref().map(|(size, precs)| {
         FloatCachePolicy::from_config(FloatCachePolicyConfig { cache_size: *size, key_precisions: precs.clone() })
             .expect("cache config")
     });
     PredictionModelRecord {
         name: name.to_string(),
-        prediction_model: Arc::new(Stub { su: r.su, gu: r.gu, ru: r.ru, a0: r.a0, a1: r.a1, a2: r.a2, calls }),
+        prediction_model: Arc::new(Stub { su: r.su, gu: r.gu, ru: r.ru, a0: r.a0, a1: r.a1, a2: r.a2, calls, seen }),
         model_type: ModelType::Smartcore,
         speed_unit: r.su,
         grade_unit: r.gu,
@@ -329,8 +332,9 @@ fn show(sp: &Spec, o: &Obs) -> String {
 }
 
 enum Step {
-    /// state after the edge; whether the main / sustain stub was called during the edge
-    Ok(Obs, bool, bool),
+    /// state after the edge; whether the main / sustain stub was called during the edge; the raw
+    /// (speed, grade) the predictor was handed (only recorded when no cache is configured)
+    Ok(Obs, bool, bool, Option<(f64, f64)>),
     Err(&'static str),
 }
 
@@ -349,12 +353,14 @@ struct Outcome {
 fn execute(sp: &Spec) -> (String, Outcome) {
     let calls_main = Arc::new(AtomicUsize::new(0));
     let calls_sus = Arc::new(AtomicUsize::new(0));
+    let seen = Arc::new(std::sync::Mutex::new(None));
+    let no_cache = sp.rec.cache.is_none() && sp.sustain.as_ref().map(|r| r.cache.is_none()).unwrap_or(true);
     let name = "veh".to_string();
     let vehicle: Arc<dyn VehicleType> = match sp.kind {
-        Kind::Ice => Arc::new(ICE::new(name.clone(), build_record("rec", &sp.rec, calls_main.clone())).unwrap()),
+        Kind::Ice => Arc::new(ICE::new(name.clone(), build_record("rec", &sp.rec, calls_main.clone(), seen.clone())).unwrap()),
         Kind::Bev => Arc::new(BEV::new(
             name.clone(),
-            build_record("rec", &sp.rec, calls_main.clone()),
+            build_record("rec", &sp.rec, calls_main.clone(), seen.clone()),
             Energy::new(sp.cap),
             Energy::new(sp.cap),
             sp.bunit,
@@ -362,8 +368,8 @@ fn execute(sp: &Spec) -> (String, Outcome) {
         Kind::Phev => Arc::new(
             PHEV::new(
                 name.clone(),
-                build_record("sustain", sp.sustain.as_ref().unwrap(), calls_sus.clone()),
-                build_record("deplete", &sp.rec, calls_main.clone()),
+                build_record("sustain", sp.sustain.as_ref().unwrap(), calls_sus.clone(), seen.clone()),
+                build_record("deplete", &sp.rec, calls_main.clone(), seen.clone()),
                 Energy::new(sp.cap),
                 Energy::new(sp.cap),
                 sp.bunit,
@@ -457,12 +463,26 @@ fn execute(sp: &Spec) -> (String, Outcome) {
         match model.traverse_edge((&v, &edge, &v), &mut state, &sm) {
             Ok(()) => {
                 let o = read_state(sp, &sm, &state);
-                parts.push(format!("ok {}", show(sp, &o)));
+                // without a cache the predictor is called on every edge: report what it was handed
+                let mut handed = None;
+                let probe = if no_cache {
+                    match seen.lock().unwrap().take() {
+                        Some((s, su, g, gu)) => {
+                            handed = Some((s, g));
+                            format!(" p {} {} {} {}", fbits(s), fbits(g), su, gu)
+                        }
+                        None => " p none".to_string(),
+                    }
+                } else {
+                    String::new()
+                };
+                parts.push(format!("ok {}{}", show(sp, &o), probe));
                 out.last = o.clone();
                 out.steps.push(Step::Ok(
                     o,
                     calls_main.load(Ordering::SeqCst) > cm,
                     calls_sus.load(Ordering::SeqCst) > cs,
+                    handed,
                 ));
             }
             Err(e) => {
@@ -602,13 +622,21 @@ fn oracle(ctx: &mut Ctx, idx: usize, sp: &Spec, oc: &Outcome) {
     let mut all_ok = true;
     for (i, step) in oc.steps.iter().enumerate() {
         let (id, d_m) = sp.edges[i];
-        let (cur, called_main, called_sus) = match step {
-            Step::Ok(o, a, b) => (o, *a, *b),
+        let (cur, called_main, called_sus, handed) = match step {
+            Step::Ok(o, a, b, h) => (o, *a, *b, *h),
             Step::Err(_) => {
                 all_ok = false;
                 break;
             }
         };
+        // the speed and grade handed to the predictor are the edge's own (speed table / grade table entries)
+        if let Some((hs, hg)) = handed {
+            let want_s = sp.speeds[id] * si_s(&sp.esu) / si_s(&sp.tmsu);
+            let want_g = sp.grades.as_ref().map(|g| g[id]).unwrap_or(0.0);
+            if !((hs - want_s).abs() <= CHAIN_TOL * want_s.abs()) || hg != want_g {
+                ctx.fail(idx, "traverse_edge/predictor-inputs", format!("edge #{} (id {}): the predictor was handed speed {} {} and grade {} but the tables say {} {} and {}", i, id, hs, sp.tmsu, hg, want_s, sp.tmsu, want_g));
+            }
+        }
         // which record the property says is used on this edge, and into which feature
         let (rec, electric, called) = match sp.kind {
             Kind::Ice => (&sp.rec, false, called_main),
@@ -1089,7 +1117,7 @@ pub fn run(ctx: &mut Ctx) -> &'static str {
                     if sp.rec.cache.is_some() { ctx.count("with_cache"); } else { ctx.count("without_cache"); }
                     for s in oc.steps.iter() {
                         match s {
-                            Step::Ok(o, cm, cs) => {
+                            Step::Ok(o, cm, cs, _) => {
                                 if sp.kind != Kind::Ice {
                                     if o.soc == 0.0 { ctx.count("soc_clamped_at_0"); }
                                     else if o.soc == 100.0 { ctx.count("soc_at_100"); }
